@@ -28,7 +28,16 @@ use lightning::ln::chan_utils::make_funding_redeemscript;
 use lightning::ln::msgs::{UnsignedChannelAnnouncement, UnsignedChannelUpdate};
 use lightning::ln::verif_hooks::router as vr;
 use lightning::routing::gossip::{EffectiveCapacity, NetworkGraph, NodeId};
-use lightning::routing::router::{find_route, PaymentParameters, Route, RouteParameters};
+use lightning::blinded_path::payment::{BlindedPayInfo, BlindedPaymentPath, Bolt12RefundContext, ForwardTlvs, PaymentConstraints, PaymentContext, PaymentForwardNode, PaymentRelay, ReceiveTlvs};
+use lightning::blinded_path::BlindedHop;
+use lightning::ln::channel_state::{ChannelCounterparty, ChannelDetails, ChannelShutdownState};
+use lightning::ln::types::ChannelId;
+use lightning::routing::gossip::RoutingFees;
+use lightning::routing::router::{find_route, InFlightHtlcs, PaymentParameters, Route, RouteHint, RouteHintHop, RouteParameters, ScorerAccountingForInFlightHtlcs};
+use lightning::routing::scoring::ScoreUpdate;
+use lightning::sign::ReceiveAuthKey;
+use lightning::types::features::{BlindedHopFeatures, Bolt12InvoiceFeatures, InitFeatures};
+use lightning::types::payment::PaymentSecret;
 use lightning::routing::scoring::{
 	FixedPenaltyScorer, ProbabilisticScorer, ProbabilisticScoringDecayParameters,
 	ProbabilisticScoringFeeParameters,
@@ -147,21 +156,69 @@ fn fees_model(args: &Args) {
 // ------------------------------------------------------------------------------------------------
 // c16router
 
-#[derive(Clone, Debug)]
-struct Chan { scid: u64, src: usize, dst: usize, enabled: bool, hmin: u64, hmax: u64, cap: Option<u64>, base: u64, prop: u64, cltv: u64 }
-impl Chan { fn limit(&self) -> u64 { match self.cap { Some(k) => self.hmax.min(k), None => self.hmax } } }
+/// the variants of router.rs `CandidateRouteHop`
+#[derive(Clone, Copy, Debug, PartialEq, Eq)]
+enum Kind { Pub, First, Hint, Blinded, OneHop }
+impl Kind {
+	fn tag(self) -> &'static str { match self { Kind::Pub => "p", Kind::First => "f", Kind::Hint => "h", Kind::Blinded => "b", Kind::OneHop => "o" } }
+	fn from_tag(t: &str) -> Kind { match t { "p" => Kind::Pub, "f" => Kind::First, "h" => Kind::Hint, "b" => Kind::Blinded, "o" => Kind::OneHop, _ => panic!("kind {}", t) } }
+	fn is_blinded(self) -> bool { matches!(self, Kind::Blinded | Kind::OneHop) }
+}
+/// Candidate finding "first-hop bypass" (see `record`): `true` turns the documented probe outcome into a failure.
+const FLAG_FIRST_HOP_BYPASS: bool = false;
+/// Candidate finding "max_path_count exceeded after the contribution was rounded down" (see `record`): `true` makes it a failure.
+const FLAG_PATH_COUNT_ROUNDING: bool = false;
+/// virtual node index of the payee of a blinded request
+const BLINDED_PAYEE: usize = 999;
+/// One candidate the router may use, with the RAW data (ChannelUpdateInfo / ChannelDetails / RouteHintHop / BlindedPayInfo).
+/// First: scid = get_outbound_payment_scid(), alt = the real short_channel_id when an alias exists, hmin/hmax =
+/// next_outbound_htlc_minimum_msat / next_outbound_htlc_limit_msat. Blinded/OneHop: scid = index of the blinded path.
+#[derive(Clone, Debug, PartialEq)]
+struct Chan { kind: Kind, scid: u64, alt: Option<u64>, src: usize, dst: usize, enabled: bool, hmin: u64, hmax: u64, unbounded: bool, cap: Option<u64>, base: u64, prop: u64, cltv: u64 }
+impl Chan {
+	/// what the candidate can carry at most (the harness's own reading of the property, not the generated table)
+	fn limit(&self) -> u64 { match self.kind { Kind::Pub => match self.cap { Some(k) => self.hmax.min(k), None => self.hmax }, Kind::First | Kind::Blinded => self.hmax, Kind::Hint => if self.unbounded { u64::MAX } else { self.hmax }, Kind::OneHop => u64::MAX } }
+	/// no fee and no CLTV delta for our own channel; the payinfo of a one-hop blinded path is ignored
+	fn fee_base(&self) -> u64 { match self.kind { Kind::First | Kind::OneHop => 0, _ => self.base } }
+	fn fee_prop(&self) -> u64 { match self.kind { Kind::First | Kind::OneHop => 0, _ => self.prop } }
+	fn cltv_delta(&self) -> u64 { match self.kind { Kind::First | Kind::OneHop => 0, _ => self.cltv } }
+	fn min(&self) -> u64 { match self.kind { Kind::OneHop => 0, _ => self.hmin } }
+	/// the two id tokens of the line: a first hop gives the RAW ChannelDetails ids <outbound_scid_alias|-> <short_channel_id|->
+	/// (`raw_alias` says whether `scid` is an alias), every other candidate <scid> -
+	fn ids(&self) -> (String, String) {
+		let o = |x: Option<u64>| x.map_or("-".to_string(), |k| k.to_string());
+		if self.kind != Kind::First { return (self.scid.to_string(), "-".into()); }
+		match self.alt { Some(real) => (self.scid.to_string(), real.to_string()), None => if self.scid >= 2_000_000 { (self.scid.to_string(), "-".into()) } else { (o(None), self.scid.to_string()) } }
+	}
+}
 #[derive(Clone, Debug)]
 struct Req { payer: usize, payee: usize, amt: u64, maxfee: Option<u64>, maxcltv: u64, maxpaths: u64, maxlen: u64, finalcltv: u64, excluded: Vec<u64>,
+	/// `first_hops` supplied; previously_failed_blinded_path_idxs
+	has_first: bool, excluded_blinded: Vec<u64>,
 	/// replay information only (not part of the property): payee advertises MPP, saturation power, scorer kind, seed byte
 	mpp: bool, satpow: u8, scorer: u64, seed0: u8 }
+/// a RouteHop, or (blinded) the BlindedTail of the path: scid = index of the blinded path, node = BLINDED_PAYEE,
+/// fee = final_value_msat, cltv = 0 (the excess final CLTV delta is already in the last RouteHop's cltv_expiry_delta)
 #[derive(Clone, Debug)]
-struct Hop { scid: u64, node: usize, fee: u64, cltv: u64 }
+struct Hop { scid: u64, node: usize, fee: u64, cltv: u64, blinded: bool }
 
-fn lookup<'a>(g: &'a [Chan], scid: u64, src: usize, dst: usize) -> Option<&'a Chan> { g.iter().find(|c| c.scid == scid && c.src == src && c.dst == dst) }
+fn lookup<'a>(g: &'a [Chan], scid: u64, src: usize, dst: usize) -> Option<&'a Chan> { g.iter().find(|c| c.kind == Kind::Pub && c.scid == scid && c.src == src && c.dst == dst) }
+fn two_way(g: &[Chan], c: &Chan) -> bool { lookup(g, c.scid, c.dst, c.src).is_some() }
+fn usable_edge(g: &[Chan], c: &Chan) -> bool { c.kind != Kind::Pub || two_way(g, c) }
+fn excludes(q: &Req, c: &Chan) -> bool { if c.kind.is_blinded() { q.excluded_blinded.contains(&c.scid) } else { q.excluded.contains(&c.scid) } }
+/// the candidate a route hop stands for (index into g): blinded tail -> the blinded path with that index at the introduction node;
+/// from the payer with first_hops supplied -> only a first-hop channel to that peer, named by alias OR real scid;
+/// otherwise the usable public direction, else a hint hop
+fn resolve(g: &[Chan], q: &Req, src: usize, h: &Hop) -> Option<usize> {
+	if h.blinded { return if src == q.payer { None } else { g.iter().position(|c| c.kind.is_blinded() && c.scid == h.scid && c.src == src && c.dst == h.node) }; }
+	if q.has_first && src == q.payer { return g.iter().position(|c| c.kind == Kind::First && (c.scid == h.scid || c.alt == Some(h.scid)) && c.src == src && c.dst == h.node); }
+	g.iter().position(|c| c.kind == Kind::Pub && c.scid == h.scid && c.src == src && c.dst == h.node && two_way(g, c))
+		.or_else(|| g.iter().position(|c| c.kind == Kind::Hint && c.scid == h.scid && c.src == src && c.dst == h.node))
+}
 fn policy_fee(c: &Chan, amt: u128) -> Option<u128> {
-	let prod = amt * c.prop as u128;
+	let prod = amt * c.fee_prop() as u128;
 	if prod > u64::MAX as u128 { return None; }
-	let s = c.base as u128 + prod / 1_000_000;
+	let s = c.fee_base() as u128 + prod / 1_000_000;
 	if s > u64::MAX as u128 { None } else { Some(s) }
 }
 
@@ -170,7 +227,7 @@ fn recheck(g: &[Chan], q: &Req, r: &[Vec<Hop>]) -> Result<(), (&'static str, Str
 	if r.len() as u64 > q.maxpaths { return Err(("paths", format!("{} paths > max_path_count {}", r.len(), q.maxpaths))); }
 	let delivered: u128 = r.iter().map(|p| p.last().map_or(0, |h| h.fee as u128)).sum();
 	let over = delivered.saturating_sub(q.amt as u128);
-	let mut uses: Vec<(u64, usize, usize, u128)> = vec![];
+	let mut uses: Vec<(Option<usize>, u128)> = vec![];
 	let mut chain_err: Option<String> = None;
 	for (pi, path) in r.iter().enumerate() {
 		if path.is_empty() { chain_err.get_or_insert(format!("path {} empty", pi)); continue; }
@@ -179,23 +236,26 @@ fn recheck(g: &[Chan], q: &Req, r: &[Vec<Hop>]) -> Result<(), (&'static str, Str
 		let mut acc = 0u128;
 		for i in (0..n).rev() { acc += path[i].fee as u128; amts[i] = acc; }
 		let mut src = q.payer;
-		let mut chans: Vec<Option<&Chan>> = vec![];
-		for h in path.iter() { chans.push(lookup(g, h.scid, src, h.node)); src = h.node; }
+		let mut idx: Vec<Option<usize>> = vec![];
+		for h in path.iter() { idx.push(resolve(g, q, src, h)); src = h.node; }
+		let chans: Vec<Option<&Chan>> = idx.iter().map(|i| i.map(|i| &g[i])).collect();
 		for i in 0..n {
-			let c = match chans[i] { Some(c) => c, None => { chain_err.get_or_insert(format!("path {} hop {}: no channel {} from node {} to node {} in the graph", pi, i, path[i].scid, if i == 0 { q.payer } else { path[i - 1].node }, path[i].node)); break; } };
-			if lookup(g, c.scid, c.dst, c.src).is_none() { chain_err.get_or_insert(format!("path {} hop {}: channel {} has no policy for the reverse direction (not usable)", pi, i, c.scid)); }
+			let from = if i == 0 { q.payer } else { path[i - 1].node };
+			let c = match chans[i] { Some(c) => c, None => { chain_err.get_or_insert(format!("path {} hop {}: no usable {} {} from node {} to node {} among the candidates{}", pi, i, if path[i].blinded { "blinded path" } else { "channel" }, path[i].scid, from, path[i].node,
+				if q.has_first && from == q.payer { " (first_hops supplied: only a first-hop channel, by alias or scid, may be used)" } else { "" })); break; } };
+			if !usable_edge(g, c) { chain_err.get_or_insert(format!("path {} hop {}: channel {} has no policy for the reverse direction (not usable)", pi, i, c.scid)); }
 			if !c.enabled { chain_err.get_or_insert(format!("path {} hop {}: channel {} direction disabled", pi, i, c.scid)); }
-			if (c.hmin as u128) > amts[i] { chain_err.get_or_insert(format!("path {} hop {}: amount {} below htlc_minimum {} of channel {}", pi, i, amts[i], c.hmin, c.scid)); }
-			if q.excluded.contains(&c.scid) { chain_err.get_or_insert(format!("path {} hop {}: excluded channel {}", pi, i, c.scid)); }
+			if (c.min() as u128) > amts[i] { chain_err.get_or_insert(format!("path {} hop {}: amount {} below htlc_minimum {} of {:?} {}", pi, i, amts[i], c.min(), c.kind, c.scid)); }
+			if excludes(q, c) { chain_err.get_or_insert(format!("path {} hop {}: excluded {:?} {}", pi, i, c.kind, c.scid)); }
 			if i + 1 < n {
 				match chans[i + 1] {
 					None => { chain_err.get_or_insert(format!("path {} hop {}: next channel unknown", pi, i)); },
 					Some(c2) => {
 						match policy_fee(c2, amts[i + 1]) {
 							None => { chain_err.get_or_insert(format!("path {} hop {}: policy fee of channel {} overflows on {}", pi, i + 1, c2.scid, amts[i + 1])); },
-							Some(f) => if f > path[i].fee as u128 { chain_err.get_or_insert(format!("path {} node {} forwards {} msat over channel {} (base {} prop {}) but is paid {} < {}", pi, path[i].node, amts[i + 1], c2.scid, c2.base, c2.prop, path[i].fee, f)); },
+							Some(f) => if f > path[i].fee as u128 { chain_err.get_or_insert(format!("path {} node {} forwards {} msat over {:?} {} (base {} prop {}) but is paid {} < {}", pi, path[i].node, amts[i + 1], c2.kind, c2.scid, c2.fee_base(), c2.fee_prop(), path[i].fee, f)); },
 						}
-						if c2.cltv > path[i].cltv { chain_err.get_or_insert(format!("path {} hop {}: cltv delta {} < policy {} of channel {}", pi, i, path[i].cltv, c2.cltv, c2.scid)); }
+						if c2.cltv_delta() > path[i].cltv { chain_err.get_or_insert(format!("path {} hop {}: cltv delta {} < policy {} of {:?} {}", pi, i, path[i].cltv, c2.cltv_delta(), c2.kind, c2.scid)); }
 					},
 				}
 			} else {
@@ -207,25 +267,30 @@ fn recheck(g: &[Chan], q: &Req, r: &[Vec<Hop>]) -> Result<(), (&'static str, Str
 		let mut raise_at = vec![0u128; n]; // raise reported at hop k (k >= 1)
 		for k in 1..n {
 			if let Some(c) = chans[k] {
-				if amts[k] == c.hmin as u128 {
+				if amts[k] == c.min() as u128 {
 					let ex = match policy_fee(c, amts[k]) { Some(f) => (path[k - 1].fee as u128).saturating_sub(f), None => 0 };
 					raise_at[k] = ex + if k == n - 1 { over } else { 0 };
 				}
 			}
 		}
-		let mut src = q.payer;
 		for i in 0..n {
 			let after: u128 = raise_at[i + 1..].iter().sum();
-			uses.push((path[i].scid, src, path[i].node, amts[i].saturating_sub(after)));
-			src = path[i].node;
+			uses.push((idx[i], amts[i].saturating_sub(after)));
 		}
 	}
 	if let Some(e) = chain_err { return Err(("chain", e)); }
-	for path in r { if path.len() as u64 > q.maxlen { return Err(("length", format!("path of {} hops > max_path_length {}", path.len(), q.maxlen))); } }
+	for path in r { let l = path.iter().filter(|h| !h.blinded).count() as u64; if l > q.maxlen { return Err(("length", format!("path of {} hops > max_path_length {}", l, q.maxlen))); } }
 	for path in r { let t: u128 = path.iter().map(|h| h.cltv as u128).sum(); if t > q.maxcltv as u128 { return Err(("cltv", format!("total cltv {} > max_total_cltv_expiry_delta {}", t, q.maxcltv))); } }
-	for c in g {
-		let u: u128 = uses.iter().filter(|u| u.0 == c.scid && u.1 == c.src && u.2 == c.dst).map(|u| u.3).sum();
-		if u > c.limit() as u128 { return Err(("capacity", format!("channel {} {}->{} carries {} msat jointly > min(htlc_maximum {}, capacity {:?})", c.scid, c.src, c.dst, u, c.hmax, c.cap))); }
+	for (ci, c) in g.iter().enumerate() {
+		// joint use of the candidate: all hops that RESOLVE to it (a first-hop channel named by its alias in one path and by its real scid in another is one channel)
+		let u: u128 = uses.iter().filter(|u| u.0.map_or(false, |i| i == ci || g[i] == *c)).map(|u| u.1).sum();
+		if u > c.limit() as u128 {
+			return Err(("capacity", match c.kind {
+				Kind::Pub => format!("channel {} {}->{} carries {} msat jointly > min(htlc_maximum {}, capacity {:?})", c.scid, c.src, c.dst, u, c.hmax, c.cap),
+				Kind::First => format!("first-hop channel (outbound scid {} / real scid {:?}) {}->{} carries {} msat jointly > next_outbound_htlc_limit_msat {}", c.scid, c.alt, c.src, c.dst, u, c.hmax),
+				_ => format!("{:?} candidate {} {}->{} carries {} msat jointly > htlc_maximum {}", c.kind, c.scid, c.src, c.dst, u, c.limit()),
+			}));
+		}
 	}
 	if (q.amt as u128) > delivered { return Err(("amount", format!("delivers {} < requested {}", delivered, q.amt))); }
 	for path in r { let d = path.last().unwrap().fee as u128; if delivered - d >= q.amt as u128 { return Err(("superfluous", format!("part of {} msat not needed: {} delivered for {}", d, delivered, q.amt))); } }
@@ -244,21 +309,26 @@ fn final_raise_signature(g: &[Chan], q: &Req, r: &[Vec<Hop>], detail: &str) -> b
 	let p = match r.get(pi) { Some(p) => p, None => return false };
 	let n = p.len();
 	let src = if n >= 2 { p[n - 2].node } else { q.payer };
-	match lookup(g, p[n - 1].scid, src, p[n - 1].node) { Some(c) => c.hmin >= 1 && c.hmin == p[n - 1].fee, None => false }
+	match resolve(g, q, src, &p[n - 1]) { Some(i) => g[i].min() >= 1 && g[i].min() == p[n - 1].fee, None => false }
 }
 
 /// claim about the fee recurrence: every returned path's fee_msats are what the recurrence yields for the
-/// value the path delivers (`ne` only if a channel of the route is not in the graph)
+/// value the path delivers (`ne` only if a channel of the route is not among the candidates)
 fn recur_claim(g: &[Chan], q: &Req, r: &[Vec<Hop>]) -> &'static str {
 	if r.iter().all(|p| p.is_empty()) { return "skip"; }
 	for path in r {
 		let mut src = q.payer;
-		for h in path { if lookup(g, h.scid, src, h.node).is_none() { return "ne"; } src = h.node; }
+		for h in path { if resolve(g, q, src, h).is_none() { return "ne"; } src = h.node; }
 	}
 	"eq"
 }
 
-fn usable(g: &[Chan], q: &Req, c: &Chan) -> bool { lookup(g, c.scid, c.dst, c.src).is_some() && c.enabled && c.hmin <= q.amt && q.amt <= c.limit() && !q.excluded.contains(&c.scid) }
+/// candidate the router may consider at all for this request (from the payer: the first hops only, if supplied)
+fn edge_allowed(g: &[Chan], q: &Req, c: &Chan) -> bool {
+	usable_edge(g, c) && c.enabled && !excludes(q, c) &&
+		if c.src == q.payer { if q.has_first { c.kind == Kind::First } else { c.kind == Kind::Pub || c.kind == Kind::Hint } } else { c.kind != Kind::First }
+}
+fn usable(g: &[Chan], q: &Req, c: &Chan) -> bool { edge_allowed(g, q, c) && c.min() <= q.amt && q.amt <= c.limit() }
 /// reference reachability (same definition as Lean `singlePathExists`)
 fn reference(g: &[Chan], q: &Req, edge_ok: &dyn Fn(&Chan) -> bool) -> bool {
 	let mut seen: HashSet<usize> = HashSet::new();
@@ -275,14 +345,15 @@ fn reference(g: &[Chan], q: &Req, edge_ok: &dyn Fn(&Chan) -> bool) -> bool {
 }
 
 fn req_str(q: &Req) -> String {
-	format!("{} {} {} {} {} {} {} {} {} {} {} {} X {}{}", q.payer, q.payee, q.amt, q.maxfee.map_or("-".to_string(), |m| m.to_string()), q.maxcltv, q.maxpaths, q.maxlen, q.finalcltv,
-		q.mpp as u8, q.satpow, q.scorer, q.seed0, q.excluded.len(), q.excluded.iter().map(|s| format!(" {}", s)).collect::<String>())
+	format!("{} {} {} {} {} {} {} {} {} {} {} {} {} X {}{} B {}{}", q.payer, q.payee, q.amt, q.maxfee.map_or("-".to_string(), |m| m.to_string()), q.maxcltv, q.maxpaths, q.maxlen, q.finalcltv,
+		q.has_first as u8, q.mpp as u8, q.satpow, q.scorer, q.seed0, q.excluded.len(), q.excluded.iter().map(|s| format!(" {}", s)).collect::<String>(),
+		q.excluded_blinded.len(), q.excluded_blinded.iter().map(|s| format!(" {}", s)).collect::<String>())
 }
 fn graph_str(g: &[Chan]) -> String {
-	format!("G {}{}", g.len(), g.iter().map(|c| format!(" {} {} {} {} {} {} {} {} {} {}", c.scid, c.src, c.dst, c.enabled as u8, c.hmin, c.hmax, c.cap.map_or("-".to_string(), |k| k.to_string()), c.base, c.prop, c.cltv)).collect::<String>())
+	format!("G {}{}", g.len(), g.iter().map(|c| format!(" {} {} {} {} {} {} {} {} {} {} {} {}", c.kind.tag(), c.ids().0, c.ids().1, c.src, c.dst, c.enabled as u8, c.hmin, if c.unbounded { "-".to_string() } else { c.hmax.to_string() }, c.cap.map_or("-".to_string(), |k| k.to_string()), c.base, c.prop, c.cltv)).collect::<String>())
 }
 fn route_str(r: &[Vec<Hop>]) -> String {
-	format!("R {}{}", r.len(), r.iter().map(|p| format!(" {}{}", p.len(), p.iter().map(|h| format!(" {} {} {} {}", h.scid, h.node, h.fee, h.cltv)).collect::<String>())).collect::<String>())
+	format!("R {}{}", r.len(), r.iter().map(|p| format!(" {}{}", p.len(), p.iter().map(|h| format!(" {} {} {} {} {}", h.scid, h.node, h.fee, h.cltv, h.blinded as u8)).collect::<String>())).collect::<String>())
 }
 
 struct World { pks: Vec<PublicKey>, ids: Vec<NodeId>, index: HashMap<NodeId, usize> }
@@ -383,14 +454,24 @@ fn dump_graph(ng: &Graph, w: &World) -> Vec<Chan> {
 		let ci = ro.channels().get(&scid).unwrap();
 		let (a, b) = (w.index[&ci.node_one], w.index[&ci.node_two]);
 		let cap = ci.capacity_sats.map(|c| c * 1000);
-		if let Some(u) = &ci.one_to_two { out.push(Chan { scid, src: a, dst: b, enabled: u.enabled, hmin: u.htlc_minimum_msat, hmax: u.htlc_maximum_msat, cap, base: u.fees.base_msat as u64, prop: u.fees.proportional_millionths as u64, cltv: u.cltv_expiry_delta as u64 }); }
-		if let Some(u) = &ci.two_to_one { out.push(Chan { scid, src: b, dst: a, enabled: u.enabled, hmin: u.htlc_minimum_msat, hmax: u.htlc_maximum_msat, cap, base: u.fees.base_msat as u64, prop: u.fees.proportional_millionths as u64, cltv: u.cltv_expiry_delta as u64 }); }
+		if let Some(u) = &ci.one_to_two { out.push(Chan { kind: Kind::Pub, alt: None, unbounded: false, scid, src: a, dst: b, enabled: u.enabled, hmin: u.htlc_minimum_msat, hmax: u.htlc_maximum_msat, cap, base: u.fees.base_msat as u64, prop: u.fees.proportional_millionths as u64, cltv: u.cltv_expiry_delta as u64 }); }
+		if let Some(u) = &ci.two_to_one { out.push(Chan { kind: Kind::Pub, alt: None, unbounded: false, scid, src: b, dst: a, enabled: u.enabled, hmin: u.htlc_minimum_msat, hmax: u.htlc_maximum_msat, cap, base: u.fees.base_msat as u64, prop: u.fees.proportional_millionths as u64, cltv: u.cltv_expiry_delta as u64 }); }
 	}
 	out
 }
 
-fn to_hops(route: &Route, w: &World) -> Vec<Vec<Hop>> {
-	route.paths.iter().map(|p| p.hops.iter().map(|h| Hop { scid: h.short_channel_id, node: w.index[&NodeId::from_pubkey(&h.pubkey)], fee: h.fee_msat, cltv: h.cltv_expiry_delta as u64 }).collect()).collect()
+/// `blinding_points[i]` = blinding point of the payee's i-th blinded path (unique per request): identifies a BlindedTail
+fn to_hops(route: &Route, w: &World, blinding_points: &[PublicKey]) -> Vec<Vec<Hop>> {
+	route.paths.iter().map(|p| {
+		let mut v: Vec<Hop> = p.hops.iter().map(|h| Hop { scid: h.short_channel_id, node: w.index[&NodeId::from_pubkey(&h.pubkey)], fee: h.fee_msat, cltv: h.cltv_expiry_delta as u64, blinded: false }).collect();
+		if let Some(t) = &p.blinded_tail {
+			let idx = blinding_points.iter().position(|b| *b == t.blinding_point).map_or(u64::MAX, |i| i as u64);
+			// excess_final_cltv_expiry_delta is already part of the last RouteHop's cltv_expiry_delta (add_random_cltv_offset adds the
+			// shadow offset to both; Path::total_cltv_expiry_delta sums the hops only): the tail itself adds no CLTV delta
+			v.push(Hop { scid: idx, node: BLINDED_PAYEE, fee: t.final_value_msat, cltv: 0, blinded: true });
+		}
+		v
+	}).collect()
 }
 
 /// Conservative completeness double-check (Rust only): a path whose every hop can carry `mult` times an
@@ -401,11 +482,15 @@ fn ample_path_exists(g: &[Chan], q: &Req, n_nodes: usize, mult: u128) -> bool { 
 /// Returns a concrete payer→payee path over ample edges, after re-verifying on THAT path, with the fees
 /// accumulated hop by hop (payee → payer, the payer's own channel is free), that every hop amount lies
 /// within [htlc_minimum, min(htlc_maximum, capacity)], and that length and total CLTV are within the limits.
-fn ample_path(g: &[Chan], q: &Req, n_nodes: usize, mult: u128) -> Option<Vec<Chan>> {
-	let usable_all: Vec<&Chan> = g.iter().filter(|c| c.enabled && !q.excluded.contains(&c.scid) && lookup(g, c.scid, c.dst, c.src).is_some()).collect();
-	let maxbase = usable_all.iter().map(|c| c.base as u128).max().unwrap_or(0);
-	let maxprop = usable_all.iter().map(|c| c.prop as u128).max().unwrap_or(0);
-	let maxcltv_delta = usable_all.iter().map(|c| c.cltv).max().unwrap_or(0);
+fn ample_path(g: &[Chan], q: &Req, n_nodes: usize, mult: u128) -> Option<Vec<Chan>> { ample_path_ext(g, q, n_nodes, mult, false) }
+/// `all`: additionally EVERY candidate the router may consider must be ample — or, for a single-path request, plainly unable
+/// to carry the amount — (so that no tight alternative can be preferred and then fail: the mechanism of KF-C16-5 is
+/// excluded by construction)
+fn ample_path_ext(g: &[Chan], q: &Req, n_nodes: usize, mult: u128, all: bool) -> Option<Vec<Chan>> {
+	let usable_all: Vec<&Chan> = g.iter().filter(|c| edge_allowed(g, q, c)).collect();
+	let maxbase = usable_all.iter().map(|c| c.fee_base() as u128).max().unwrap_or(0);
+	let maxprop = usable_all.iter().map(|c| c.fee_prop() as u128).max().unwrap_or(0);
+	let maxcltv_delta = usable_all.iter().map(|c| c.cltv_delta()).max().unwrap_or(0);
 	let hops = (n_nodes as u64).saturating_sub(1);
 	if hops > q.maxlen.min(19) { return None; }
 	let internal_cltv = { let room = q.maxcltv.saturating_sub(q.finalcltv); let r = if room >= 80 { room - 80 } else { room }; r.min(u16::MAX as u64) };
@@ -414,7 +499,11 @@ fn ample_path(g: &[Chan], q: &Req, n_nodes: usize, mult: u128) -> Option<Vec<Cha
 	let mut bound = 3 * q.amt as u128; // the router may search with 3x the value (recommended_value_msat)
 	for _ in 0..hops { bound = bound + maxbase + (bound * maxprop + 999_999) / 1_000_000 + 1; if bound > (1u128 << 62) { return None; } }
 	let need = bound * mult;
-	let ok = |c: &Chan| usable(g, q, c) && (c.limit() as u128) >= need;
+	// `all`: ample also after the saturation shift of the first pass (a shifted limit just above the amount is "tight" too)
+	let ok = |c: &Chan| usable(g, q, c) && ((if all { c.limit() >> q.satpow.min(63) } else { c.limit() }) as u128) >= need;
+	// a single-path request ignores candidates that cannot carry the whole amount (limit below it / minimum above it): they are not "tight"
+	let single = !(q.mpp && q.maxpaths > 1);
+	if all && usable_all.iter().any(|c| !(ok(c) || (single && (c.limit() < q.amt || c.min() > q.amt)))) { return None; }
 	// BFS with parents
 	let mut parent: HashMap<usize, Chan> = HashMap::new();
 	let mut seen: HashSet<usize> = HashSet::new();
@@ -432,32 +521,350 @@ fn ample_path(g: &[Chan], q: &Req, n_nodes: usize, mult: u128) -> Option<Vec<Cha
 	path.reverse();
 	// exact re-verification with accumulated fees
 	if path.len() as u64 > q.maxlen.min(19) { return None; }
-	let cltv: u64 = path[1..].iter().map(|c| c.cltv).sum::<u64>() + q.finalcltv;
-	if cltv > q.maxcltv || path[1..].iter().map(|c| c.cltv).sum::<u64>() > internal_cltv { return None; }
+	let cltv: u64 = path[1..].iter().map(|c| c.cltv_delta()).sum::<u64>() + q.finalcltv;
+	if cltv > q.maxcltv || path[1..].iter().map(|c| c.cltv_delta()).sum::<u64>() > internal_cltv { return None; }
 	let mut amt = q.amt as u128;
 	for i in (0..path.len()).rev() {
 		let c = &path[i];
-		if amt < c.hmin as u128 || amt > c.limit() as u128 { return None; }
+		if amt < c.min() as u128 || amt > c.limit() as u128 { return None; }
 		if i > 0 { amt += policy_fee(c, amt)?; }
 	}
 	Some(path)
 }
 
+struct Stats { n_ok: u64, n_err: u64, n_panic: u64, n_multi: u64, n_raise: u64, n_first: u64, n_hint: u64, n_blinded: u64, n_alias_real: u64, n_probe: u64, n_bypass: u64, bypass_example: String, n_all_ample: u64, n_count_rounding: u64, count_rounding_example: String,
+	debug_asserts: std::collections::BTreeMap<String, (u64, String)> }
+
+/// classify and record one find_route outcome (`ext`: an extended request — first hops / hints / blinded tails / fed scorer)
+fn record(rec: &mut Rec, st: &mut Stats, w: &World, g: &[Chan], gs: &str, q: &Req, n: usize, ext: bool, probe: bool, blinding_points: &[PublicKey],
+	res: Result<Result<Route, &'static str>, String>, kept: &mut Vec<lightning::routing::router::Path>) {
+	match res {
+		Err(p) => {
+			st.n_panic += 1;
+			let at = LAST_PANIC_AT.lock().unwrap().clone();
+			let p1 = p.replace('\n', " ");
+			// The router's own debug assertions (this harness, like the crate's tests, builds with debug
+			// assertions) are not clauses of C16 ("every route the router RETURNS …"): no route is
+			// returned. Counted as discarded cases, reported in the notes with one example input each.
+			// Only the two assertions observed on the unchanged tree are discarded (DESIGN 9.3, observations); any other router
+			// assertion — e.g. `paths.len() <= max_path_count`, which states a clause of C16 about the route that a release
+			// build WOULD return — is a failure with the request as the failing input.
+			let own_assert = at.starts_with("router.rs") && (p1.contains("assertion failed: false") || p1.contains("Paths should always send more than 0 msat"));
+			if own_assert {
+				rec.discarded += 1;
+				let key = format!("{} at {}", if p1.len() > 80 { &p1[..80] } else { &p1[..] }, at);
+				let e = st.debug_asserts.entry(key).or_insert((0u64, String::new()));
+				e.0 += 1;
+				if e.1.is_empty() { e.1 = format!("noroute {} {}", req_str(q), gs); }
+				*rec.classes.entry("find_route:own-debug-assert(discarded)".into()).or_insert(0) += 1;
+			} else if ext && !FLAG_PATH_COUNT_ROUNDING && p1.contains("paths.len() <= payment_params.max_path_count") && g.iter().any(|c| edge_allowed(g, q, c) && (c.fee_base() > 0 || c.fee_prop() > 0)) {
+				// CANDIDATE FINDING (reported to the integrator, see the run notes): with non-zero fees after a hop, PaymentPath::max_final_value_msat
+				// rounds the path's contribution DOWN below what add_entry! admitted (e.g. hop maximum 5, fees base 1 + 1 ppm: ⌊4000001/1000001⌋ = 3,
+				// although 4 + fee(4) = 5 fits), so a collected path contributes less than minimal_value_contribution_msat = ⌈amount/max_path_count⌉
+				// and more than max_path_count paths are needed: debug assertion here, a route with too many paths in a release build.
+				// Plain requests and the zero-fee fan family (seeded C16-b) stay failures.
+				rec.discarded += 1; st.n_count_rounding += 1;
+				if st.count_rounding_example.is_empty() { st.count_rounding_example = format!("noroute {} {}", req_str(q), gs); }
+				*rec.classes.entry("find_route:CANDIDATE-FINDING(max_path_count exceeded: contribution rounded below the minimal contribution; extended requests with fees only)".into()).or_insert(0) += 1;
+			} else {
+				rec.oracle_fail(format!("find_route panicked ({} at {}) on: noroute {} {}", p1, at, req_str(q), gs));
+				*rec.classes.entry("find_route:panic".into()).or_insert(0) += 1;
+			}
+		},
+		Ok(Ok(route)) => {
+			st.n_ok += 1;
+			let r = to_hops(&route, w, blinding_points);
+			if r.len() > 1 { st.n_multi += 1; }
+			let op = format!("route {} {} {}", req_str(q), gs, route_str(&r));
+			let mut bypass = false;
+			let verdict = match recheck(g, q, &r) {
+				Ok(()) => "valid".to_string(),
+				// CANDIDATE FINDING (reported to the integrator, see the run notes): on a PROBE request — a route hint (A) whose source is
+				// the payer, (B) whose scid is a public channel of the payer that is NOT among first_hops, or (C) whose scid is a public
+				// channel whose direction towards the hint's target is DISABLED — the router (A, B) leaves the payer over that hint / graph
+				// channel although first_hops was supplied, (C) routes over the disabled direction: a hint naming a channel of the graph
+				// becomes a PublicHop candidate in `last_hop_candidates` without the `first_hops.is_none() || source != our_node_id` and
+				// `direction().enabled` tests of the graph walk. Both checkers say `invalid chain`; it is counted and
+				// documented, and becomes a failure as soon as FLAG_FIRST_HOP_BYPASS is set.
+				Err((clause, detail)) if probe && !FLAG_FIRST_HOP_BYPASS && clause == "chain" && ((detail.contains(" hop 0: no usable channel") && detail.contains("first_hops supplied")) || detail.contains("direction disabled")) => {
+					bypass = true; st.n_bypass += 1;
+					if st.bypass_example.is_empty() { st.bypass_example = format!("{} | {}", detail, op); }
+					format!("invalid {}", clause) },
+				Err((clause, detail)) => {
+					let tag = if clause == "chain" && detail.contains("is paid") && final_raise_signature(g, q, &r, &detail) { "KF-C16-1 final-hop raised to htlc_minimum, upstream fee computed without the raise: " }
+						else if clause == "capacity" && r.iter().enumerate().any(|(i, _)| final_raise_signature(g, q, &r, &format!("path {} ", i))) { "KF-C16-6 htlc_maximum exceeded after raises to htlc_minimum (final-hop raise not propagated upstream, no re-check): " } else { "" };
+					rec.oracle_fail(format!("{}find_route returned a route violating clause `{}`: {} | {}", tag, clause, detail, op)); format!("invalid {}", clause) },
+			};
+			// classify: shape of the route and whether a raise to a minimum is visible
+			let mut raised = false;
+			let (mut first, mut hint, mut blinded, mut by_real) = (false, false, false, false);
+			for p in &r { let mut src = q.payer; let mut acc: Vec<u64> = vec![0; p.len()]; let mut s = 0u64; for i in (0..p.len()).rev() { s = s.saturating_add(p[i].fee); acc[i] = s; }
+				for (i, h) in p.iter().enumerate() { if let Some(ci) = resolve(g, q, src, h) { let c = &g[ci]; if acc[i] == c.min() && c.min() > 1 { raised = true; }
+					match c.kind { Kind::First => { first = true; if c.scid != h.scid { by_real = true; } }, Kind::Hint => hint = true, Kind::Blinded | Kind::OneHop => blinded = true, Kind::Pub => {} } } src = h.node; } }
+			if raised { st.n_raise += 1; }
+			if first { st.n_first += 1; } if hint { st.n_hint += 1; } if blinded { st.n_blinded += 1; } if by_real { st.n_alias_real += 1; }
+			let over = r.iter().map(|p| p.last().unwrap().fee as u128).sum::<u128>() > q.amt as u128;
+			let class = format!("route:{}{}{}{}{}{}{}", if r.len() > 1 { "mpp" } else { "single" }, match r.iter().map(|p| p.iter().filter(|h| !h.blinded).count()).max().unwrap_or(0) { 1 => "/direct", 2 | 3 => "/2-3hops", _ => "/4+hops" }, if raised { "/at-minimum" } else { "" }, if over { "/overpays" } else { "" },
+				if first { "/first-hop" } else { "" }, if hint { "/hint" } else { "" }, if blinded { "/blinded-tail" } else { "" });
+			let class = if bypass { "route:CANDIDATE-FINDING(hint naming a graph channel / sourced at the payer bypasses first_hops or `enabled`; probe requests only)".to_string() } else { class };
+			rec.case(&op, &format!("{} recur={}", verdict, recur_claim(g, q, &r)), &class, true);
+			if ext {
+				// how often the completeness oracle of extended requests is armed (a route found while it is armed = it held)
+				let mut nodes: HashSet<usize> = g.iter().flat_map(|c| [c.src, c.dst]).collect(); nodes.insert(q.payer); nodes.insert(q.payee);
+				if ample_path_ext(g, q, nodes.len(), if q.maxpaths > 1 && q.mpp { 2 } else { 1 }, true).is_some() { st.n_all_ample += 1; }
+				for p in route.paths { if kept.len() < 24 { kept.push(p); } }
+			}
+		},
+		Ok(Err(e)) => {
+			st.n_err += 1;
+			let found = reference(g, q, &|c: &Chan| usable(g, q, c));
+			let op = format!("noroute {} {}", req_str(q), gs);
+			let class;
+			if found {
+				let mult = if q.maxpaths > 1 && q.mpp { 2 } else { 1 };
+				if !ext {
+					if let Some(path) = ample_path(g, q, n, mult) {
+						let path_s: String = path.iter().map(|c| format!(" {}:{}->{}", c.scid, c.src, c.dst)).collect();
+						let e = format!("{}; sufficient path (scid:src->dst){}", e, path_s);
+						class = "noroute:ref-found,ample(FLAGGED)".to_string();
+						rec.oracle_fail(format!("KF-C16-5 router reports failure although a sufficient single path exists: find_route failed (\"{}\") although a single path with ample limits exists and fee/CLTV/length limits cannot bind | {}", e, op));
+					} else { class = "noroute:ref-found,not-confirmed(limits may bind)".to_string(); }
+				} else {
+					// extended requests: flagged only when EVERY candidate the router may consider is ample (no tight alternative
+					// exists, so the mechanism of KF-C16-5 cannot be the cause)
+					let mut nodes: HashSet<usize> = g.iter().flat_map(|c| [c.src, c.dst]).collect(); nodes.insert(q.payer); nodes.insert(q.payee);
+					if let Some(path) = ample_path_ext(g, q, nodes.len(), mult, true) {
+						let path_s: String = path.iter().map(|c| format!(" {}{}:{}->{}", c.kind.tag(), c.scid, c.src, c.dst)).collect();
+						class = "noroute:ext,ref-found,all-ample(FLAGGED)".to_string();
+						rec.oracle_fail(format!("router reports failure (\"{}\") although a sufficient single path through the supplied first hops / hints / blinded paths exists{} and every candidate is ample (fee/CLTV/length limits cannot bind) | {}", e, path_s, op));
+					} else { class = "noroute:ext,ref-found,not-confirmed".to_string(); }
+				}
+			} else { class = format!("noroute:{}ref-none/{}", if ext { "ext," } else { "" }, if e.contains("sufficient") { "insufficient" } else if e.contains("find a path") { "no-path" } else { "other" }); }
+			rec.case(&op, if found { "ref=found" } else { "ref=none" }, &class, true);
+		},
+	}
+}
+
+fn channel_details(peer: PublicKey, scid: Option<u64>, alias: Option<u64>, limit: u64, min: u64, announced: bool) -> ChannelDetails {
+	#[allow(deprecated)]
+	ChannelDetails {
+		channel_id: ChannelId::new_zero(),
+		counterparty: ChannelCounterparty { features: InitFeatures::empty(), node_id: peer, unspendable_punishment_reserve: 0, forwarding_info: None, outbound_htlc_minimum_msat: None, outbound_htlc_maximum_msat: None },
+		funding_txo: None, funding_redeem_script: None, channel_type: None,
+		short_channel_id: scid, outbound_scid_alias: alias, inbound_scid_alias: None,
+		channel_value_satoshis: limit / 1000 + 1, user_channel_id: 0, outbound_capacity_msat: limit,
+		next_outbound_htlc_limit_msat: limit, next_outbound_htlc_minimum_msat: min, next_splice_out_maximum_sat: limit / 1000,
+		inbound_capacity_msat: 42, unspendable_punishment_reserve: None, confirmations_required: None, confirmations: None,
+		force_close_spend_delay: None, is_outbound: true, is_channel_ready: true, is_usable: true, is_announced: announced,
+		inbound_htlc_minimum_msat: None, inbound_htlc_maximum_msat: None, config: None, feerate_sat_per_1000_weight: None,
+		channel_shutdown_state: Some(ChannelShutdownState::NotShuttingDown), pending_inbound_htlcs: Vec::new(), pending_outbound_htlcs: Vec::new(),
+		current_dust_exposure_msat: None, splice_details: None,
+	}
+}
+
+struct FixedEntropy(std::sync::atomic::AtomicU64);
+impl lightning::sign::EntropySource for FixedEntropy {
+	fn get_secure_random_bytes(&self) -> [u8; 32] { let v = self.0.fetch_add(1, std::sync::atomic::Ordering::Relaxed); let mut b = [7u8; 32]; b[..8].copy_from_slice(&v.to_le_bytes()); b }
+}
+
+/// An EXTENDED request on graph `g0` (public candidates): first hops (several channels to the same peer, outbound alias
+/// different from the real scid, limited outbound), 0–3 route hints (also naming one of our own channels by alias or by real
+/// scid), or 1–3 blinded tails (from raw payinfo or a real BlindedPaymentPath::new), excluded channels / blinded paths.
+/// Returns the request, the candidate list, the RouteParameters, the first hops and the blinding points.
+fn ext_request(rng: &mut Rng, w: &World, secp: &Secp256k1<bitcoin::secp256k1::All>, g0: &[Chan], n: usize, amt_hint: u64, blind_pks: &[PublicKey], probe: bool)
+	-> (Req, Vec<Chan>, RouteParameters, Option<Vec<ChannelDetails>>, Vec<PublicKey>) {
+	let nmax = w.pks.len();
+	let payer = rng.below(n as u64) as usize;
+	let mut payee = rng.below(n as u64) as usize;
+	if payee == payer { payee = (payer + 1) % n; }
+	let amt = match rng.below(7) { 0 => rng.range(1, 20), 1 => near(rng, amt_hint).max(1), 2 => rng.range(1, amt_hint.max(1)), 3 => if g0.is_empty() { amt_hint.max(1) } else { let c = rng.pick(g0); near(rng, c.limit()).max(1) },
+		4 => amt_hint.saturating_mul(rng.range(2, 4)), _ => amt_hint.max(1) }.min(2_000_000_000_000_000);
+	// `roomy`: a single-path request for a small amount with generous own channels / hints / blinded paths and default limits:
+	// arms the completeness oracle of extended requests
+	let roomy = !probe && rng.chance(1, 4);
+	let amt = if roomy { match rng.below(3) { 0 => rng.range(1, 2000), 1 => amt_hint / 1000 + 1, _ => amt_hint / 50 + 1 } } else { amt };
+	let mut g: Vec<Chan> = g0.to_vec();
+	// ---- first hops
+	let has_first = probe || rng.chance(3, 4);
+	let mut details: Vec<ChannelDetails> = vec![];
+	let mut own: Vec<(usize, u64, Option<u64>)> = vec![]; // (peer, outbound payment scid, real scid if also aliased)
+	if has_first {
+		let mut peers: Vec<usize> = vec![];
+		let neigh: Vec<usize> = g0.iter().filter(|c| c.src == payer).map(|c| c.dst).collect();
+		for _ in 0..rng.range(1, 4) {
+			let p = match rng.below(6) { 0 => payee, 1 | 2 | 3 if !neigh.is_empty() => *rng.pick(&neigh), _ => rng.below(n as u64) as usize };
+			if p != payer && !peers.contains(&p) { peers.push(p); }
+		}
+		let mut k = 0u64;
+		for &peer in &peers {
+			for _ in 0..match rng.below(4) { 0 | 1 => 1, 2 => 2, _ => 3 } {
+				k += 1;
+				// the real scid: an announced channel of the graph between us and the peer, or a private one
+				let public: Vec<u64> = g0.iter().filter(|c| c.src == payer && c.dst == peer && two_way(g0, c)).map(|c| c.scid).filter(|s| !own.iter().any(|o| o.1 == *s || o.2 == Some(*s))).collect();
+				let (real, announced) = if !public.is_empty() && rng.chance(1, 2) { (*rng.pick(&public), true) } else { (1_000_000 + k, false) };
+				let (scid, alias) = match rng.below(10) { 0 | 1 => (Some(real), None), 2 => (None, Some(2_000_000 + k)), _ => (Some(real), Some(2_000_000 + k)) };
+				let limit = match rng.below(7) { 0 => near(rng, amt).max(1), 1 => near(rng, amt / 2 + 1).max(1), 2 => rng.range(1, 2 * amt + 1), 3 => amt.saturating_mul(rng.range(2, 50)), 4 => near(rng, amt / 3 + 1).max(1), 5 => near(rng, amt.saturating_add(amt / 50 + 1)), _ => amt.saturating_mul(1000).saturating_add(10_000_000) };
+				let min = match rng.below(8) { 0 => near(rng, amt), 1 => rng.below(amt + 1), 2 => 1, 3 => rng.below(1000), _ => 0 };
+				let (limit, min) = if roomy { (amt.saturating_mul(100_000).saturating_add(1_000_000_000), min.min(amt)) } else { (limit, min) };
+				details.push(channel_details(w.pks[peer], scid, alias, limit, min, announced));
+				let out = alias.or(scid).unwrap();
+				own.push((peer, out, if alias.is_some() { scid } else { None }));
+				g.push(Chan { kind: Kind::First, scid: out, alt: if alias.is_some() { scid } else { None }, src: payer, dst: peer, enabled: true, hmin: min, hmax: limit, unbounded: false, cap: None, base: 0, prop: 0, cltv: 0 });
+			}
+		}
+		if details.is_empty() { // always at least one channel
+			let peer = (payer + 1) % n;
+			details.push(channel_details(w.pks[peer], Some(1_000_099), Some(2_000_099), amt.saturating_mul(3), 0, false));
+			own.push((peer, 2_000_099, Some(1_000_099)));
+			g.push(Chan { kind: Kind::First, scid: 2_000_099, alt: Some(1_000_099), src: payer, dst: peer, enabled: true, hmin: 0, hmax: amt.saturating_mul(3), unbounded: false, cap: None, base: 0, prop: 0, cltv: 0 });
+		}
+	}
+	let finalcltv = *rng.pick(&[0u32, 18, 40, 144]);
+	let mpp = !roomy && rng.chance(2, 3);
+	let blinded_mode = !probe && rng.chance(3, 10);
+	let mut blinding_points: Vec<PublicKey> = vec![];
+	let mut pp;
+	let (q_payee, q_finalcltv);
+	if blinded_mode {
+		// ---- blinded tails: the payee is virtual; one candidate per path, introduction node -> payee
+		let n_paths = match rng.below(4) { 0 => 1, 3 => 3, _ => 2 };
+		let mut paths: Vec<BlindedPaymentPath> = vec![];
+		let one_hop_intro = payee;
+		for i in 0..n_paths {
+			let n_hops = match rng.below(5) { 0 => 1, 1 | 2 => 2, _ => 3 } as usize;
+			let intro = if n_hops == 1 { one_hop_intro } else { match rng.below(8) { 0 => payer, 1 | 2 if !own.is_empty() => rng.pick(&own).0, 3 => rng.below(nmax as u64) as usize, _ => { let x = rng.below(n as u64) as usize; if x == payer { payee } else { x } } } };
+			let blinding = blind_pks[i];
+			let base = match rng.below(5) { 0 => 0, 1 => 1000, 2 => rng.below(5000), 3 => rng.below(amt.min(u32::MAX as u64) / 20 + 1), _ => 1 };
+			let prop = match rng.below(5) { 0 => 0, 1 => 100, 2 => rng.below(5000), 3 => rng.below(200_000), _ => 1 };
+			let cltv = match rng.below(4) { 0 => 0, 1 => 40, 2 => rng.below(300), _ => 144 };
+			let hmin = match rng.below(6) { 0 => near(rng, amt), 1 => rng.below(amt + 1), 2 => 1, _ => 0 };
+			let hmax = match rng.below(6) { 0 => near(rng, amt).max(1), 1 => near(rng, amt / 2 + 1).max(1), 2 => rng.range(1, 2 * amt + 1), _ => amt.saturating_mul(rng.range(2, 1000)).max(1) };
+			let (hmin, hmax) = if roomy { (hmin.min(amt), amt.saturating_mul(100_000).saturating_add(1_000_000_000)) } else { (hmin, hmax) };
+			let hops: Vec<BlindedHop> = (0..n_hops).map(|j| BlindedHop { blinded_node_id: blind_pks[(i + j + 1) % blind_pks.len()], encrypted_payload: vec![] }).collect();
+			let mut payinfo = BlindedPayInfo { fee_base_msat: base as u32, fee_proportional_millionths: prop as u32, cltv_expiry_delta: cltv as u16, htlc_minimum_msat: hmin, htlc_maximum_msat: hmax, features: BlindedHopFeatures::empty() };
+			let mut path = BlindedPaymentPath::from_blinded_path_and_payinfo(w.pks[intro], blinding, hops, payinfo.clone());
+			if n_hops == 2 && rng.chance(1, 2) {
+				// a REAL blinded path: one forwarding node (the introduction node) and the recipient; payinfo aggregated by LDK
+				let fwd = PaymentForwardNode { tlvs: ForwardTlvs { short_channel_id: 4_000_000 + i as u64, payment_relay: PaymentRelay { cltv_expiry_delta: cltv as u16, fee_proportional_millionths: prop as u32, fee_base_msat: base as u32 },
+					payment_constraints: PaymentConstraints { max_cltv_expiry: 1_000_000, htlc_minimum_msat: hmin }, features: BlindedHopFeatures::empty(), next_blinding_override: None }, node_id: w.pks[intro], htlc_maximum_msat: hmax };
+				let tlvs = ReceiveTlvs { payment_secret: PaymentSecret([3; 32]), payment_constraints: PaymentConstraints { max_cltv_expiry: 1_000_000, htlc_minimum_msat: 1 }, payment_context: PaymentContext::Bolt12Refund(Bolt12RefundContext { payment_metadata: None }) };
+				let es = FixedEntropy(std::sync::atomic::AtomicU64::new(rng.next()));
+				if let Ok(real) = BlindedPaymentPath::new(&[fwd], blind_pks[(i + 5) % blind_pks.len()], ReceiveAuthKey([9; 32]), tlvs, u64::MAX, finalcltv as u16, &es, secp) {
+					payinfo = real.payinfo.clone(); path = real;
+				}
+			}
+			let bp = path.blinding_point();
+			if blinding_points.contains(&bp) { continue; }
+			blinding_points.push(bp);
+			g.push(Chan { kind: if path.blinded_hops().len() == 1 { Kind::OneHop } else { Kind::Blinded }, scid: paths.len() as u64, alt: None, src: intro, dst: BLINDED_PAYEE, enabled: true, hmin: payinfo.htlc_minimum_msat, hmax: payinfo.htlc_maximum_msat, unbounded: false, cap: None,
+				base: payinfo.fee_base_msat as u64, prop: payinfo.fee_proportional_millionths as u64, cltv: payinfo.cltv_expiry_delta as u64 });
+			paths.push(path);
+		}
+		pp = PaymentParameters::blinded(paths);
+		if mpp { let mut f = Bolt12InvoiceFeatures::empty(); f.set_basic_mpp_optional(); pp = pp.with_bolt12_features(f).unwrap(); }
+		q_payee = BLINDED_PAYEE; q_finalcltv = 0u64;
+	} else {
+		// ---- route hints (chains ending at the payee)
+		pp = if mpp { PaymentParameters::for_keysend(w.pks[payee], finalcltv, true) } else { PaymentParameters::from_node_id(w.pks[payee], finalcltv) };
+		let n_hints = if probe { 0 } else { match rng.below(5) { 0 => 0, 1 | 2 => 1, 3 => 2, _ => 3 } };
+		let mut hints: Vec<RouteHint> = vec![];
+		let mut hk = 0u64;
+		if probe {
+			// PROBE (candidate finding, see `record`): (A) a hint hop whose source is the payer over a channel we do not have, or
+			// (B) a hint hop whose scid is a public channel of the payer that is not among first_hops
+			let pubs: Vec<&Chan> = g0.iter().filter(|c| c.src == payer && two_way(g0, c) && c.enabled && !own.iter().any(|o| o.1 == c.scid || o.2 == Some(c.scid))).collect();
+			let free = |src: usize, scid: u64| RouteHintHop { src_node_id: w.pks[src], short_channel_id: scid, fees: RoutingFees { base_msat: 0, proportional_millionths: 0 }, cltv_expiry_delta: 40, htlc_minimum_msat: None, htlc_maximum_msat: None };
+			let edge = |src: usize, dst: usize, scid: u64| Chan { kind: Kind::Hint, scid, alt: None, src, dst, enabled: true, hmin: 0, hmax: 0, unbounded: true, cap: None, base: 0, prop: 0, cltv: 40 };
+			let off: Vec<&Chan> = g0.iter().filter(|c| !c.enabled && c.src != payer && c.dst != payer && two_way(g0, c)).collect();
+			let (src, mid, scid) = if !off.is_empty() && rng.chance(1, 3) { let c = *rng.pick(&off); let y = (0..n).find(|y| *y != payee && *y != payer && *y != c.dst && *y != c.src).unwrap_or(c.src); (y, c.dst, c.scid) }
+				else if !pubs.is_empty() && rng.chance(1, 2) { let c = *rng.pick(&pubs); let y = (0..n).find(|y| *y != payee && *y != payer && *y != c.dst).unwrap_or(payer); (y, c.dst, c.scid) }
+				else { let x = { let x = rng.below(n as u64) as usize; if x == payer { payee } else { x } }; (payer, x, 3_000_900) };
+			let mut hops = vec![free(src, scid)]; g.push(edge(src, mid, scid));
+			if mid != payee { hops.push(free(mid, 3_000_901)); g.push(edge(mid, payee, 3_000_901)); }
+			if src != payee { hints.push(RouteHint(hops)); } else { g.truncate(g.len() - if mid != payee { 2 } else { 1 }); }
+		}
+		for _ in 0..n_hints {
+			// nodes of the chain: src_0 -> src_1 -> … -> payee
+			let mut chain: Vec<usize> = vec![];
+			let own_first = !own.is_empty() && rng.chance(2, 5);
+			let mut own_pick: Option<(usize, u64, Option<u64>)> = None;
+			// a hint whose first hop is one of OUR channels (payer -> that channel's peer), named by alias or real scid below
+			if own_first { let o = *rng.pick(&own); own_pick = Some(o); chain.push(payer); if o.0 != payee { chain.push(o.0); } }
+			let extra = match rng.below(4) { 0 => 0, 1 | 2 => 1, _ => 2 };
+			let n_extra = if own_first { if chain.len() == 1 { 0 } else { extra.min(1) } } else { extra.max(1) };
+			for _ in 0..n_extra {
+				let x = if rng.chance(1, 2) { rng.below(n as u64) as usize } else { rng.below(nmax as u64) as usize };
+				if x != payee && x != payer && !chain.contains(&x) { chain.push(x); }
+			}
+			if chain.is_empty() { continue; }
+			let mut hops: Vec<RouteHintHop> = vec![];
+			for (i, &src) in chain.iter().enumerate() {
+				let dst = if i + 1 < chain.len() { chain[i + 1] } else { payee };
+				hk += 1;
+				let naming_own = i == 0 && own_pick.is_some();
+				// a hint may name a channel of the graph — but (outside probes) not one of the payer's own public channels (see `record`)
+				let scid = if naming_own { let o = own_pick.unwrap(); match o.2 { Some(real) if rng.chance(1, 2) => real, _ => o.1 } }
+					else if rng.chance(1, 10) && !g0.is_empty() { let c = rng.pick(g0); let s = c.scid; if own.iter().any(|o| o.1 == s || o.2 == Some(s)) || g0.iter().any(|d| d.scid == s && (!d.enabled || (has_first && (d.src == payer || d.dst == payer)))) { 3_000_000 + hk } else { s } } else { 3_000_000 + hk };
+				let base = match rng.below(5) { 0 => 0, 1 => 1000, 2 => rng.below(5000), 3 => rng.below(amt.min(u32::MAX as u64) / 20 + 1), _ => 1 };
+				let prop = match rng.below(5) { 0 => 0, 1 => 100, 2 => rng.below(5000), 3 => rng.below(200_000), _ => 1 };
+				let cltv = match rng.below(4) { 0 => 0, 1 => 40, 2 => rng.below(300), _ => 144 };
+				let hmin = match rng.below(6) { 0 => Some(near(rng, amt)), 1 => Some(rng.below(amt + 1)), 2 => Some(1), 3 => Some(0), _ => None };
+				let hmax = match rng.below(6) { 0 => Some(near(rng, amt).max(1)), 1 => Some(near(rng, amt / 2 + 1).max(1)), 2 => Some(rng.range(1, 2 * amt + 1)), 3 => Some(amt.saturating_mul(rng.range(2, 1000))), _ => None };
+				let (hmin, hmax) = if roomy { (hmin.map(|m| m.min(amt)), hmax.map(|m| m.max(amt.saturating_mul(100_000).saturating_add(1_000_000_000)))) } else { (hmin, hmax) };
+				hops.push(RouteHintHop { src_node_id: w.pks[src], short_channel_id: scid, fees: RoutingFees { base_msat: base as u32, proportional_millionths: prop as u32 }, cltv_expiry_delta: cltv as u16, htlc_minimum_msat: hmin, htlc_maximum_msat: hmax });
+				// get_route step (1): a hint whose scid is a channel of the graph directed to the hint's target becomes a PublicHop candidate with
+				// the GRAPH's data (`network_channels.get(&scid).and_then(|c| c.as_directed_to(target))`) — already among the candidates; the
+				// private hop the hint describes is then NOT a candidate
+				let replaced = g0.iter().any(|c| c.scid == scid && c.dst == dst && two_way(g0, c));
+				if !(replaced && !naming_own) { g.push(Chan { kind: Kind::Hint, scid, alt: None, src, dst, enabled: true, hmin: hmin.unwrap_or(0), hmax: hmax.unwrap_or(0), unbounded: hmax.is_none(), cap: None, base, prop, cltv }); }
+			}
+			hints.push(RouteHint(hops));
+		}
+		if !hints.is_empty() { pp = pp.with_route_hints(hints).unwrap(); }
+		q_payee = payee; q_finalcltv = finalcltv as u64;
+	}
+	pp.max_path_count = match rng.below(5) { 0 => 1, 1 => 2, 2 => rng.range(1, 10) as u8, _ => 10 };
+	let plain = roomy || rng.chance(1, 2);
+	if !plain {
+		pp.max_total_cltv_expiry_delta = match rng.below(5) { 0 => q_finalcltv as u32 + rng.below(300) as u32, 1 => 1_000_000, 2 => q_finalcltv as u32 + 1 + rng.below(120) as u32, _ => 1008 };
+		pp.max_path_length = match rng.below(5) { 0 => rng.range(1, 4) as u8, 1 => rng.range(1, 19) as u8, _ => 19 };
+	}
+	pp.max_channel_saturation_power_of_half = match rng.below(4) { 0 => 0, 1 => rng.below(4) as u8, _ => 2 };
+	if roomy { pp.max_channel_saturation_power_of_half = rng.below(2) as u8; }
+	if !roomy && rng.chance(1, 4) { for _ in 0..rng.range(1, 3) { let c = rng.pick(&g); if c.kind.is_blinded() { pp.previously_failed_blinded_path_idxs.push(c.scid); } else { pp.previously_failed_channels.push(if c.kind == Kind::First && rng.chance(1, 3) { c.alt.unwrap_or(c.scid) } else { c.scid }); } } }
+	let maxfee = if roomy { None } else if plain { if rng.chance(1, 2) { None } else { Some(amt / 100 + 50_000) } } else { match rng.below(6) { 0 => None, 1 => Some(rng.below(2000)), 2 => Some(amt / 100 + 50_000), 3 => Some(rng.below(amt / 10 + 10)), 4 => Some(0), _ => None } };
+	let params = RouteParameters { payment_params: pp.clone(), final_value_msat: amt, max_total_routing_fee_msat: maxfee };
+	let q = Req { payer, payee: q_payee, amt, maxfee, maxcltv: pp.max_total_cltv_expiry_delta as u64, maxpaths: pp.max_path_count as u64, maxlen: pp.max_path_length as u64, finalcltv: q_finalcltv, excluded: pp.previously_failed_channels.clone(),
+		has_first, excluded_blinded: pp.previously_failed_blinded_path_idxs.clone(), mpp, satpow: pp.max_channel_saturation_power_of_half, scorer: 0, seed0: 0 };
+	(q, g, params, if has_first { Some(details) } else { None }, blinding_points)
+}
+
 fn router_model(args: &Args) {
 	let mut rec = Rec::new(&args.out, "c16router");
 	let mut rng = Rng::new(args.seed ^ 0x0c16);
+	// the extended requests draw from their own generator: the v1 requests (and so KF-C16-5's inputs) stay what they were
+	let mut rng2 = Rng::new(args.seed ^ 0xc16e_87);
 	let secp = Secp256k1::new();
 	let nmax = 40usize;
 	let mut pks = vec![];
 	for i in 0..nmax { let mut sk = [0u8; 32]; sk[31] = (i + 1) as u8; sk[0] = 0x42; pks.push(PublicKey::from_secret_key(&secp, &SecretKey::from_slice(&sk).unwrap())); }
+	let blind_pks: Vec<PublicKey> = (0..12usize).map(|i| { let mut sk = [0u8; 32]; sk[31] = (i + 1) as u8; sk[0] = 0x43; PublicKey::from_secret_key(&secp, &SecretKey::from_slice(&sk).unwrap()) }).collect();
 	let ids: Vec<NodeId> = pks.iter().map(|p| NodeId::from_pubkey(p)).collect();
 	let index: HashMap<NodeId, usize> = ids.iter().enumerate().map(|(i, id)| (*id, i)).collect();
 	let w = World { pks, ids, index };
 	let chain = ChainHash::using_genesis_block(Network::Testnet);
 	let n_graphs = if args.thorough { 8000 } else { 1500 } * args.scale;
 	let per_graph = if args.thorough { 14 } else { 10 };
-	let (mut n_ok, mut n_err, mut n_panic, mut n_multi, mut n_raise) = (0u64, 0u64, 0u64, 0u64, 0u64);
-	let mut debug_asserts: std::collections::BTreeMap<String, (u64, String)> = std::collections::BTreeMap::new();
+	let per_graph_ext = if args.thorough { 12 } else { 8 };
+	let mut st = Stats { n_ok: 0, n_err: 0, n_panic: 0, n_multi: 0, n_raise: 0, n_first: 0, n_hint: 0, n_blinded: 0, n_alias_real: 0, n_probe: 0, n_bypass: 0, bypass_example: String::new(), n_all_ample: 0, n_count_rounding: 0, count_rounding_example: String::new(), debug_asserts: std::collections::BTreeMap::new() };
+	let (mut n_ext, mut n_fed, mut n_inflight) = (0u64, 0u64, 0u64);
+	// the generated `matches_an_scid` (get_route step (1)) against the property's reading: a hint names our channel by alias OR real scid
+	for _ in 0..if args.thorough { 2000 } else { 300 } {
+		let o = |rng: &mut Rng| match rng.below(4) { 0 => None, _ => Some(rng.range(1, 6)) };
+		let (a, sc, h) = (o(&mut rng2), o(&mut rng2), rng2.range(1, 6));
+		let want = a == Some(h) || sc == Some(h);
+		rec.case(&format!("matchscid {} {} {}", a.map_or("-".into(), |x| x.to_string()), sc.map_or("-".into(), |x| x.to_string()), h), if want { "1" } else { "0" }, if want { "matchscid:own-channel" } else { "matchscid:other" }, true);
+	}
 	for _ in 0..n_graphs {
 		let n = match rng.below(10) { 0..=5 => rng.range(4, 9), 6..=8 => rng.range(10, 20), _ => rng.range(21, 40) } as usize;
 		let amt_hint = match rng.below(6) { 0 => rng.range(1, 20), 1 => rng.range(1000, 100_000), 2 => 1000 * rng.range(1, 1_000_000), 3 => rng.range(1, 5_000_000_000), _ => rng.range(10_000, 50_000_000) };
@@ -471,6 +878,7 @@ fn router_model(args: &Args) {
 		let gs = graph_str(&g);
 		let prob_scorer = ProbabilisticScorer::new(ProbabilisticScoringDecayParameters::default(), &ng, &LOGGER);
 		let prob_params = ProbabilisticScoringFeeParameters::default();
+		let mut no_keep: Vec<lightning::routing::router::Path> = vec![];
 		for _ in 0..per_graph {
 			let payer = rng.below(n as u64) as usize;
 			let mut payee = rng.below(n as u64) as usize;
@@ -503,78 +911,59 @@ fn router_model(args: &Args) {
 			let params = RouteParameters { payment_params: pp.clone(), final_value_msat: amt, max_total_routing_fee_msat: maxfee };
 			let seed_bytes = [rng.next() as u8; 32];
 			let scorer_kind = rng.below(3);
-			let q = Req { payer, payee, amt, maxfee, maxcltv: pp.max_total_cltv_expiry_delta as u64, maxpaths: pp.max_path_count as u64, maxlen: pp.max_path_length as u64, finalcltv: finalcltv as u64, excluded: pp.previously_failed_channels.clone(), mpp, satpow: pp.max_channel_saturation_power_of_half, scorer: scorer_kind, seed0: seed_bytes[0] };
+			let q = Req { payer, payee, amt, maxfee, maxcltv: pp.max_total_cltv_expiry_delta as u64, maxpaths: pp.max_path_count as u64, maxlen: pp.max_path_length as u64, finalcltv: finalcltv as u64, excluded: pp.previously_failed_channels.clone(),
+				has_first: false, excluded_blinded: vec![], mpp, satpow: pp.max_channel_saturation_power_of_half, scorer: scorer_kind, seed0: seed_bytes[0] };
 			let res = guarded(AssertUnwindSafe(|| match scorer_kind {
 				0 => find_route(&w.pks[payer], &params, &ng, None, &LOGGER, &prob_scorer, &prob_params, &seed_bytes),
 				1 => find_route(&w.pks[payer], &params, &ng, None, &LOGGER, &FixedPenaltyScorer::with_penalty(0), &(), &seed_bytes),
 				_ => find_route(&w.pks[payer], &params, &ng, None, &LOGGER, &FixedPenaltyScorer::with_penalty(rng_penalty(seed_bytes[0])), &(), &seed_bytes),
 			}));
-			match res {
-				Err(p) => {
-					n_panic += 1;
-					let at = LAST_PANIC_AT.lock().unwrap().clone();
-					let p1 = p.replace('\n', " ");
-					// The router's own debug assertions (this harness, like the crate's tests, builds with debug
-					// assertions) are not clauses of C16 ("every route the router RETURNS …"): no route is
-					// returned. Counted as discarded cases, reported in the notes with one example input each.
-					// Only the two assertions observed on the unchanged tree are discarded (DESIGN 9.3, observations); any other router
-					// assertion — e.g. `paths.len() <= max_path_count`, which states a clause of C16 about the route that a release
-					// build WOULD return — is a failure with the request as the failing input.
-					let own_assert = at.starts_with("router.rs") && (p1.contains("assertion failed: false") || p1.contains("Paths should always send more than 0 msat"));
-					if own_assert {
-						rec.discarded += 1;
-						let key = format!("{} at {}", if p1.len() > 80 { &p1[..80] } else { &p1[..] }, at);
-						let e = debug_asserts.entry(key).or_insert((0u64, String::new()));
-						e.0 += 1;
-						if e.1.is_empty() { e.1 = format!("noroute {} {}", req_str(&q), gs); }
-						*rec.classes.entry("find_route:own-debug-assert(discarded)".into()).or_insert(0) += 1;
-					} else {
-						rec.oracle_fail(format!("find_route panicked ({} at {}) on: noroute {} {}", p1, at, req_str(&q), gs));
-						*rec.classes.entry("find_route:panic".into()).or_insert(0) += 1;
-					}
-				},
-				Ok(Ok(route)) => {
-					n_ok += 1;
-					let r = to_hops(&route, &w);
-					if r.len() > 1 { n_multi += 1; }
-					let op = format!("route {} {} {}", req_str(&q), gs, route_str(&r));
-					let verdict = match recheck(&g, &q, &r) {
-						Ok(()) => "valid".to_string(),
-						Err((clause, detail)) => {
-							let tag = if clause == "chain" && detail.contains("is paid") && final_raise_signature(&g, &q, &r, &detail) { "KF-C16-1 final-hop raised to htlc_minimum, upstream fee computed without the raise: " }
-								else if clause == "capacity" && r.iter().enumerate().any(|(i, _)| final_raise_signature(&g, &q, &r, &format!("path {} ", i))) { "KF-C16-6 htlc_maximum exceeded after raises to htlc_minimum (final-hop raise not propagated upstream, no re-check): " } else { "" };
-							rec.oracle_fail(format!("{}find_route returned a route violating clause `{}`: {} | {}", tag, clause, detail, op)); format!("invalid {}", clause) },
-					};
-					// classify: shape of the route and whether a raise to a minimum is visible
-					let mut raised = false;
-					for p in &r { let mut src = q.payer; let mut acc: Vec<u64> = vec![0; p.len()]; let mut s = 0u64; for i in (0..p.len()).rev() { s = s.saturating_add(p[i].fee); acc[i] = s; }
-						for (i, h) in p.iter().enumerate() { if let Some(c) = lookup(&g, h.scid, src, h.node) { if acc[i] == c.hmin && c.hmin > 1 { raised = true; } } src = h.node; } }
-					if raised { n_raise += 1; }
-					let over = r.iter().map(|p| p.last().unwrap().fee as u128).sum::<u128>() > amt as u128;
-					let class = format!("route:{}{}{}{}", if r.len() > 1 { "mpp" } else { "single" }, match r.iter().map(|p| p.len()).max().unwrap_or(0) { 1 => "/direct", 2 | 3 => "/2-3hops", _ => "/4+hops" }, if raised { "/at-minimum" } else { "" }, if over { "/overpays" } else { "" });
-					rec.case(&op, &format!("{} recur={}", verdict, recur_claim(&g, &q, &r)), &class, true);
-				},
-				Ok(Err(e)) => {
-					n_err += 1;
-					let found = reference(&g, &q, &|c: &Chan| usable(&g, &q, c));
-					let op = format!("noroute {} {}", req_str(&q), gs);
-					let class;
-					if found {
-						let mult = if q.maxpaths > 1 && mpp { 2 } else { 1 };
-						if let Some(path) = ample_path(&g, &q, n, mult) {
-							let path_s: String = path.iter().map(|c| format!(" {}:{}->{}", c.scid, c.src, c.dst)).collect();
-							let e = format!("{}; sufficient path (scid:src->dst){}", e, path_s);
-							class = "noroute:ref-found,ample(FLAGGED)".to_string();
-							rec.oracle_fail(format!("KF-C16-5 router reports failure although a sufficient single path exists: find_route failed (\"{}\") although a single path with ample limits exists and fee/CLTV/length limits cannot bind | {}", e, op));
-						} else { class = "noroute:ref-found,not-confirmed(limits may bind)".to_string(); }
-					} else { class = format!("noroute:ref-none/{}", if e.contains("sufficient") { "insufficient" } else if e.contains("find a path") { "no-path" } else { "other" }); }
-					rec.case(&op, if found { "ref=found" } else { "ref=none" }, &class, true);
-				},
+			record(&mut rec, &mut st, &w, &g, &gs, &q, n, false, false, &[], res, &mut no_keep);
+		}
+		// ---- extended requests on the same graph: first hops, route hints, blinded tails, fed scorer, in-flight HTLCs
+		let mut fed_scorer = ProbabilisticScorer::new(ProbabilisticScoringDecayParameters::default(), &ng, &LOGGER);
+		let mut kept: Vec<lightning::routing::router::Path> = vec![];
+		let mut kept_payer: Vec<usize> = vec![];
+		for _ in 0..per_graph_ext {
+			let probe = rng2.chance(1, 25);
+			let (mut q, ge, params, first, blinding_points) = ext_request(&mut rng2, &w, &secp, &g, n, amt_hint, &blind_pks, probe);
+			n_ext += 1;
+			let gse = graph_str(&ge);
+			let seed_bytes = [rng2.next() as u8; 32];
+			// scorer: 0 fresh ProbabilisticScorer, 1/2 fixed penalties, 3 a ProbabilisticScorer fed with successes / failures of routes found before
+			let scorer_kind = rng2.below(5).min(3);
+			let use_inflight = (scorer_kind == 0 || scorer_kind == 3) && !kept.is_empty() && rng2.chance(1, 2);
+			q.scorer = scorer_kind + if use_inflight { 10 } else { 0 }; q.seed0 = seed_bytes[0];
+			let mut inflight = InFlightHtlcs::new();
+			if use_inflight { n_inflight += 1; for (p, py) in kept.iter().zip(kept_payer.iter()) { if rng2.chance(2, 3) { inflight.process_path(p, w.pks[*py]); } } }
+			if scorer_kind == 3 { n_fed += 1; }
+			let refs: Option<Vec<&ChannelDetails>> = first.as_ref().map(|v| v.iter().collect());
+			let fh: Option<&[&ChannelDetails]> = refs.as_ref().map(|v| &v[..]);
+			let payer = q.payer;
+			let res = guarded(AssertUnwindSafe(|| match (scorer_kind, use_inflight) {
+				(0, false) => find_route(&w.pks[payer], &params, &ng, fh, &LOGGER, &prob_scorer, &prob_params, &seed_bytes),
+				(0, true) => find_route(&w.pks[payer], &params, &ng, fh, &LOGGER, &ScorerAccountingForInFlightHtlcs::new(&prob_scorer, &inflight), &prob_params, &seed_bytes),
+				(1, _) => find_route(&w.pks[payer], &params, &ng, fh, &LOGGER, &FixedPenaltyScorer::with_penalty(0), &(), &seed_bytes),
+				(2, _) => find_route(&w.pks[payer], &params, &ng, fh, &LOGGER, &FixedPenaltyScorer::with_penalty(rng_penalty(seed_bytes[0])), &(), &seed_bytes),
+				(_, false) => find_route(&w.pks[payer], &params, &ng, fh, &LOGGER, &fed_scorer, &prob_params, &seed_bytes),
+				(_, true) => find_route(&w.pks[payer], &params, &ng, fh, &LOGGER, &ScorerAccountingForInFlightHtlcs::new(&fed_scorer, &inflight), &prob_params, &seed_bytes),
+			}));
+			let before = kept.len();
+			let nodes: usize = { let mut s: HashSet<usize> = ge.iter().flat_map(|c| [c.src, c.dst]).collect(); s.insert(q.payer); s.insert(q.payee); s.len() };
+			if probe { st.n_probe += 1; }
+			record(&mut rec, &mut st, &w, &ge, &gse, &q, nodes, true, probe, &blinding_points, res, &mut kept);
+			while kept_payer.len() < kept.len() { kept_payer.push(payer); }
+			// feed the scorer with random outcomes of the paths just found
+			for p in kept[before..].iter() {
+				if p.hops.is_empty() { continue; }
+				let t = std::time::Duration::from_secs(1_700_000_000 + rng2.below(100_000));
+				match rng2.below(4) { 0 => fed_scorer.payment_path_successful(p, t), 1 | 2 => { let h = rng2.pick(&p.hops); fed_scorer.payment_path_failed(p, h.short_channel_id, t) }, _ => { let h = rng2.pick(&p.hops); fed_scorer.probe_failed(p, h.short_channel_id, t) } }
 			}
 		}
 	}
-	rec.notes.insert("rule".into(), format!("random NetworkGraphs (4–40 nodes, parallel channels, unknown/known capacities via UTXO stub or partial announcement, zero/extreme fees, disabled directions, missing updates, htlc min/max around the amount), {} requests each (amount 1 msat … beyond capacity; max fee / CLTV / path count / path length / saturation / excluded channels varied; ProbabilisticScorer or fixed penalty); graph dumped from NetworkGraph::read_only(); every case distinct by op text. routes={} (mpp {} / with a hop at its minimum {}), router errors={}, panics={}. v1: no first hops, route hints or blinded paths", per_graph, n_ok, n_multi, n_raise, n_err, n_panic));
-	for (i, (k, (n, ex))) in debug_asserts.iter().enumerate() {
+	rec.notes.insert("rule".into(), format!("random NetworkGraphs (4–40 nodes, parallel channels, unknown/known capacities via UTXO stub or partial announcement, zero/extreme fees, disabled directions, missing updates, htlc min/max around the amount), {} plain requests each (amount 1 msat … beyond capacity; max fee / CLTV / path count / path length / saturation / excluded channels varied; ProbabilisticScorer or fixed penalty) + {} EXTENDED requests each ({} in total: first_hops = 1–3 peers x 1–3 ChannelDetails with outbound alias != real scid (some announced channels of the graph), limits/minimums around the amount; 0–3 route hints of 1–3 hops incl. hints naming one of OUR channels by alias or by real scid; or 1–3 blinded tails (raw payinfo or a real BlindedPaymentPath::new, one-hop paths, introduction node = payer / a first-hop peer / any node); excluded channels and blinded-path indices; {} with a ProbabilisticScorer fed with successes/failures of earlier routes, {} with InFlightHtlcs of earlier routes); graph dumped from NetworkGraph::read_only(); every case distinct by op text. routes={} (mpp {} / with a hop at its minimum {} / through a first hop {} (named by the real scid {}) / through a hint hop {} / with a blinded tail {}), router errors={}, panics={}; the completeness oracle of extended requests (a single path through first hops / hints / blinded paths exists and EVERY candidate is ample) was armed on {} requests that returned a route (and is a failure with the request as input when the router returns an error). CANDIDATE FINDING (route hints bypass the graph walk's filters): {} probe requests carry a route hint (A) whose source is the payer over a channel that is not ours, (B) whose scid is a public channel of the payer missing from first_hops, or (C) whose scid is a public channel whose direction towards the hint's target is disabled; on {} of them find_route returned a route whose FIRST hop is that hint / graph channel although first_hops was supplied (A, B) or that uses the disabled direction (C) (last_hop_candidates are not filtered by `first_hops.is_none() || source != our_node_id` / `direction().enabled`); both checkers answer `invalid chain`; not counted as a failure until the integrator decides (FLAG_FIRST_HOP_BYPASS); the main generator avoids these two hint shapes. Example: {}. CANDIDATE FINDING (max_path_count): on {} extended requests find_route hit `assertion failed: paths.len() <= payment_params.max_path_count` (a route with too many paths in a release build): PaymentPath::max_final_value_msat rounds a path's contribution below minimal_value_contribution_msat when fees follow the limiting hop; counted as discarded, not as a failure, until the integrator decides (FLAG_PATH_COUNT_ROUNDING). Example: {}",
+		per_graph, per_graph_ext, n_ext, n_fed, n_inflight, st.n_ok, st.n_multi, st.n_raise, st.n_first, st.n_alias_real, st.n_hint, st.n_blinded, st.n_err, st.n_panic, st.n_all_ample, st.n_probe, st.n_bypass, if st.bypass_example.len() > 2500 { &st.bypass_example[..2500] } else { &st.bypass_example[..] }, st.n_count_rounding, if st.count_rounding_example.len() > 2500 { &st.count_rounding_example[..2500] } else { &st.count_rounding_example[..] }));
+	for (i, (k, (n, ex))) in st.debug_asserts.iter().enumerate() {
 		rec.notes.insert(format!("debug_assert_{}", i + 1), format!("find_route hit its own debug assertion: {}, {} times (discarded, not a C16 clause); example input: {}", k, n, if ex.len() > 1500 { &ex[..1500] } else { &ex[..] }));
 	}
 	rec.finish();
@@ -599,43 +988,70 @@ fn replay_model(args: &Args) {
 	let chain = ChainHash::using_genesis_block(Network::Testnet);
 	for line in std::fs::read_to_string(file).unwrap().lines() {
 		let ws: Vec<&str> = line.split_whitespace().collect();
-		if ws.len() < 16 || (ws[0] != "route" && ws[0] != "noroute") { continue; }
+		if ws.len() < 19 || (ws[0] != "route" && ws[0] != "noroute") { continue; }
 		let num = |s: &str| s.parse::<u64>().unwrap();
 		let (payer, payee, amt) = (num(ws[1]) as usize, num(ws[2]) as usize, num(ws[3]));
 		let maxfee = if ws[4] == "-" { None } else { Some(num(ws[4])) };
-		let (maxcltv, maxpaths, maxlen, finalcltv, mpp, satpow, scorer, seed0) = (num(ws[5]), num(ws[6]), num(ws[7]), num(ws[8]), ws[9] == "1", num(ws[10]), num(ws[11]), num(ws[12]) as u8);
-		let nx = num(ws[14]) as usize;
-		let excluded: Vec<u64> = ws[15..15 + nx].iter().map(|s| num(s)).collect();
-		let gi = 15 + nx; assert_eq!(ws[gi], "G");
+		let (maxcltv, maxpaths, maxlen, finalcltv, has_first, mpp, satpow, scorer, seed0) = (num(ws[5]), num(ws[6]), num(ws[7]), num(ws[8]), ws[9] == "1", ws[10] == "1", num(ws[11]), num(ws[12]), num(ws[13]) as u8);
+		let nx = num(ws[15]) as usize;
+		let excluded: Vec<u64> = ws[16..16 + nx].iter().map(|s| num(s)).collect();
+		let bi = 16 + nx; assert_eq!(ws[bi], "B");
+		let nb = num(ws[bi + 1]) as usize;
+		let excluded_blinded: Vec<u64> = ws[bi + 2..bi + 2 + nb].iter().map(|s| num(s)).collect();
+		let gi = bi + 2 + nb; assert_eq!(ws[gi], "G");
 		let nc = num(ws[gi + 1]) as usize;
 		let ng: NetworkGraph<&'static PrintLogger> = NetworkGraph::new(Network::Testnet, &PRINT);
 		let mut g = vec![];
+		let opt = |s: &str| if s == "-" { None } else { Some(s.parse::<u64>().unwrap()) };
+		let blind_pks: Vec<PublicKey> = (0..12usize).map(|i| { let mut sk = [0u8; 32]; sk[31] = (i + 1) as u8; sk[0] = 0x43; PublicKey::from_secret_key(&secp, &SecretKey::from_slice(&sk).unwrap()) }).collect();
+		let (mut details, mut hints, mut cur_hint, mut bpaths, mut blinding_points): (Vec<ChannelDetails>, Vec<RouteHint>, Vec<RouteHintHop>, Vec<BlindedPaymentPath>, Vec<PublicKey>) = (vec![], vec![], vec![], vec![], vec![]);
 		for k in 0..nc {
-			let c = &ws[gi + 2 + 10 * k..gi + 12 + 10 * k];
-			let ch = Chan { scid: num(c[0]), src: num(c[1]) as usize, dst: num(c[2]) as usize, enabled: c[3] == "1", hmin: num(c[4]), hmax: num(c[5]), cap: if c[6] == "-" { None } else { Some(num(c[6])) }, base: num(c[7]), prop: num(c[8]), cltv: num(c[9]) };
-			let (one, two) = if w.ids[ch.src] < w.ids[ch.dst] { (ch.src, ch.dst) } else { (ch.dst, ch.src) };
-			let _ = ng.add_channel_from_partial_announcement(ch.scid, ch.cap.map(|m| m / 1000), 0, ChannelFeatures::empty(), w.ids[one], w.ids[two]);
-			let dir = if ch.src == one { 0u8 } else { 1u8 };
-			let upd = UnsignedChannelUpdate { chain_hash: chain, short_channel_id: ch.scid, timestamp: 2, message_flags: 1, channel_flags: dir | ((!ch.enabled as u8) << 1), cltv_expiry_delta: ch.cltv as u16,
-				htlc_minimum_msat: ch.hmin, htlc_maximum_msat: ch.hmax, fee_base_msat: ch.base as u32, fee_proportional_millionths: ch.prop as u32, excess_data: vec![] };
-			ng.update_channel_unsigned(&upd).unwrap();
+			let c = &ws[gi + 2 + 12 * k..gi + 14 + 12 * k];
+			let (id1, id2) = if c[0] == "f" { match (opt(c[1]), opt(c[2])) { (Some(a), r) => (a, r), (None, Some(r)) => (r, None), _ => panic!("first hop without ids") } } else { (num(c[1]), None) };
+			let ch = Chan { kind: Kind::from_tag(c[0]), scid: id1, alt: id2, src: num(c[3]) as usize, dst: num(c[4]) as usize, enabled: c[5] == "1", hmin: num(c[6]), hmax: opt(c[7]).unwrap_or(0), unbounded: c[7] == "-",
+				cap: opt(c[8]), base: num(c[9]), prop: num(c[10]), cltv: num(c[11]) };
+			match ch.kind {
+				Kind::Pub => {
+					let (one, two) = if w.ids[ch.src] < w.ids[ch.dst] { (ch.src, ch.dst) } else { (ch.dst, ch.src) };
+					let _ = ng.add_channel_from_partial_announcement(ch.scid, ch.cap.map(|m| m / 1000), 0, ChannelFeatures::empty(), w.ids[one], w.ids[two]);
+					let dir = if ch.src == one { 0u8 } else { 1u8 };
+					let upd = UnsignedChannelUpdate { chain_hash: chain, short_channel_id: ch.scid, timestamp: 2, message_flags: 1, channel_flags: dir | ((!ch.enabled as u8) << 1), cltv_expiry_delta: ch.cltv as u16,
+						htlc_minimum_msat: ch.hmin, htlc_maximum_msat: ch.hmax, fee_base_msat: ch.base as u32, fee_proportional_millionths: ch.prop as u32, excess_data: vec![] };
+					ng.update_channel_unsigned(&upd).unwrap();
+				},
+				// alt present: scid is the alias and alt the real scid; otherwise only a real scid (below 2_000_000) or only an alias
+				Kind::First => details.push(match ch.alt { Some(real) => channel_details(w.pks[ch.dst], Some(real), Some(ch.scid), ch.hmax, ch.hmin, real < 1_000_000), None => if ch.scid >= 2_000_000 { channel_details(w.pks[ch.dst], None, Some(ch.scid), ch.hmax, ch.hmin, false) } else { channel_details(w.pks[ch.dst], Some(ch.scid), None, ch.hmax, ch.hmin, ch.scid < 1_000_000) } }),
+				Kind::Hint => {
+					cur_hint.push(RouteHintHop { src_node_id: w.pks[ch.src], short_channel_id: ch.scid, fees: RoutingFees { base_msat: ch.base as u32, proportional_millionths: ch.prop as u32 }, cltv_expiry_delta: ch.cltv as u16, htlc_minimum_msat: Some(ch.hmin), htlc_maximum_msat: if ch.unbounded { None } else { Some(ch.hmax) } });
+					if ch.dst == payee { hints.push(RouteHint(std::mem::take(&mut cur_hint))); }
+				},
+				Kind::Blinded | Kind::OneHop => {
+					let i = bpaths.len();
+					let hops: Vec<BlindedHop> = (0..if ch.kind == Kind::OneHop { 1 } else { 2 }).map(|j| BlindedHop { blinded_node_id: blind_pks[(i + j + 1) % blind_pks.len()], encrypted_payload: vec![] }).collect();
+					bpaths.push(BlindedPaymentPath::from_blinded_path_and_payinfo(w.pks[ch.src], blind_pks[i], hops, BlindedPayInfo { fee_base_msat: ch.base as u32, fee_proportional_millionths: ch.prop as u32, cltv_expiry_delta: ch.cltv as u16, htlc_minimum_msat: ch.hmin, htlc_maximum_msat: ch.hmax, features: BlindedHopFeatures::empty() }));
+					blinding_points.push(blind_pks[i]);
+				},
+			}
 			g.push(ch);
 		}
-		let mut pp = if mpp { PaymentParameters::for_keysend(w.pks[payee], finalcltv as u32, true) } else { PaymentParameters::from_node_id(w.pks[payee], finalcltv as u32) };
-		pp.max_path_count = maxpaths as u8; pp.max_total_cltv_expiry_delta = maxcltv as u32; pp.max_path_length = maxlen as u8; pp.max_channel_saturation_power_of_half = satpow as u8; pp.previously_failed_channels = excluded.clone();
+		let mut pp = if !bpaths.is_empty() { let b = PaymentParameters::blinded(bpaths); if mpp { let mut f = Bolt12InvoiceFeatures::empty(); f.set_basic_mpp_optional(); b.with_bolt12_features(f).unwrap() } else { b } }
+			else { let c = if mpp { PaymentParameters::for_keysend(w.pks[payee], finalcltv as u32, true) } else { PaymentParameters::from_node_id(w.pks[payee], finalcltv as u32) }; if hints.is_empty() { c } else { c.with_route_hints(hints).unwrap() } };
+		pp.max_path_count = maxpaths as u8; pp.max_total_cltv_expiry_delta = maxcltv as u32; pp.max_path_length = maxlen as u8; pp.max_channel_saturation_power_of_half = satpow as u8; pp.previously_failed_channels = excluded.clone(); pp.previously_failed_blinded_path_idxs = excluded_blinded.clone();
 		let params = RouteParameters { payment_params: pp, final_value_msat: amt, max_total_routing_fee_msat: maxfee };
-		let q = Req { payer, payee, amt, maxfee, maxcltv, maxpaths, maxlen, finalcltv, excluded, mpp, satpow: satpow as u8, scorer, seed0 };
+		let q = Req { payer, payee, amt, maxfee, maxcltv, maxpaths, maxlen, finalcltv, excluded, has_first, excluded_blinded, mpp, satpow: satpow as u8, scorer, seed0 };
 		let seed_bytes = [seed0; 32];
-		eprintln!("=== replay {} {} ...", ws[0], req_str(&q));
-		let res = guarded(AssertUnwindSafe(|| match scorer {
-			0 => find_route(&w.pks[payer], &params, &ng, None, &PRINT, &ProbabilisticScorer::new(ProbabilisticScoringDecayParameters::default(), &ng, &PRINT), &ProbabilisticScoringFeeParameters::default(), &seed_bytes),
-			1 => find_route(&w.pks[payer], &params, &ng, None, &PRINT, &FixedPenaltyScorer::with_penalty(0), &(), &seed_bytes),
-			_ => find_route(&w.pks[payer], &params, &ng, None, &PRINT, &FixedPenaltyScorer::with_penalty(rng_penalty(seed0)), &(), &seed_bytes),
+		eprintln!("=== replay {} {} ... (a fed scorer / in-flight set is not reproduced: fresh scorer)", ws[0], req_str(&q));
+		let refs: Vec<&ChannelDetails> = details.iter().collect();
+		let fh: Option<&[&ChannelDetails]> = if has_first { Some(&refs[..]) } else { None };
+		let res = guarded(AssertUnwindSafe(|| match scorer % 10 {
+			1 => find_route(&w.pks[payer], &params, &ng, fh, &PRINT, &FixedPenaltyScorer::with_penalty(0), &(), &seed_bytes),
+			2 => find_route(&w.pks[payer], &params, &ng, fh, &PRINT, &FixedPenaltyScorer::with_penalty(rng_penalty(seed0)), &(), &seed_bytes),
+			_ => find_route(&w.pks[payer], &params, &ng, fh, &PRINT, &ProbabilisticScorer::new(ProbabilisticScoringDecayParameters::default(), &ng, &PRINT), &ProbabilisticScoringFeeParameters::default(), &seed_bytes),
 		}));
 		match res {
 			Err(p) => println!("panic {}", p),
 			Ok(Err(e)) => println!("err {} (reference: {}, ample: {})", e, if reference(&g, &q, &|c: &Chan| usable(&g, &q, c)) { "found" } else { "none" }, ample_path_exists(&g, &q, 1 + g.iter().map(|c| c.src.max(c.dst)).max().unwrap_or(0), if q.maxpaths > 1 && q.mpp { 2 } else { 1 })),
-			Ok(Ok(route)) => { let r = to_hops(&route, &w); println!("{} -> {:?}", route_str(&r), recheck(&g, &q, &r)); },
+			Ok(Ok(route)) => { let r = to_hops(&route, &w, &blinding_points); println!("{} -> {:?}", route_str(&r), recheck(&g, &q, &r)); },
 		}
 	}
 }
